@@ -33,9 +33,9 @@ import Sigc.Basic
   slot variable) dies when the last functor copy naming it is destroyed (`ownedBy`).
 
   `err` is set when a cascade runs out of fuel (`fuel s = s.nextRep + 2` — cannot happen, see
-  `Sigc/Props/SlotG.lean`).  The model follows the library after the fixes of findings F10 and F11 (both
+  `Sigc/Props/SlotG.lean`).  The model follows the library after the fixes of findings F10, F11 and F12 (both
   `operator=` store the new representation in the variable before they delete the old one; the copy assignment
-  reads `src.blocked_` before the exchange).  No proofs in this file.
+  reads `src.blocked_` before the exchange; `delete_rep_with_check()` clears `rep_` before it deletes).  No proofs in this file.
 -/
 namespace Sigc.SlotG
 
@@ -149,12 +149,6 @@ def pinned (s : State) (v : Nat) : Bool := anyRep s fun _ R => R.refs v
 def pinnedOther (s : State) (v : Nat) : Bool := anyRep s fun r R => R.refs v && repOf s v != some r
 /-- some live owning functor copy shares the holder of `v` (`use_count() > 0`) -/
 def ownedBy (s : State) (v : Nat) : Bool := anyRep s fun _ R => R.ownsVar v
-
-/-- the functor stored in `v`'s representation is an owning functor -/
-def ownKind (s : State) (v : Nat) : Bool :=
-  match repObj s v with
-  | some R => (match R.fn with | some (.own ..) => true | _ => false)
-  | none => false
 
 def hasParent (s : State) (v : Nat) : Bool :=
   match repObj s v with
@@ -297,13 +291,14 @@ def repDisconnect (r : Nat) (s : State) : State :=
     | none => s1
     | some p => notifyInv (fuel s1) p s1
 
-/-- `slot_base::delete_rep_with_check()` on variable `v` -/
+/-- `slot_base::delete_rep_with_check()` on variable `v`: `rep_->disconnect(); if (notifier) { auto old_rep_ =
+    rep_; rep_ = nullptr; delete old_rep_; }` -/
 def deleteRepWithCheck (v : Nat) (s : State) : State :=
   match repOf s v with
   | none => s
   | some r =>
     let s1 := repDisconnect r s
-    if (s1.reps r).isSome then (deleteRep r s1).modSlot v fun V => { V with rep := none } else s1
+    if (s1.reps r).isSome then deleteRep r (s1.modSlot v fun V => { V with rep := none }) else s1
 
 def entryActive (s : State) (t r : Nat) : Bool :=
   match s.trks t with
@@ -407,11 +402,6 @@ def specCheck (s : State) : Fun → Option String
     if (match t with | some t' => deadT s t' | none => false) then some "dead" else
     if pinned s v then some "pinned" else none
 
-/-- the rule for `delete_rep_with_check()` on `d` (assignment from an empty source, `*d = slot()`): it writes
-    `rep_ = nullptr` after `delete rep_`, so that deletion must not destroy `d` itself -/
-def deleteCheck (s : State) (d : Nat) : Option String :=
-  if ownKind s d && ownedBy s d then some "owned" else none
-
 /-- the refusal of an operation, `none` = it is performed -/
 def check (s : State) : Op → Option String
   | .newT t => if deadT s t then none else some "exists"
@@ -423,11 +413,11 @@ def check (s : State) : Op → Option String
   | .asgS d x | .masgS d x =>
     if deadS s d || deadS s x then some "dead"
     else if repOf s d == repOf s x then none
-    else if emptyVar s x then deleteCheck s d else none
+    else none
   | .setS d f =>
     if deadS s d then some "dead" else
     specCheck s f
-  | .clrS d => if deadS s d then some "dead" else deleteCheck s d
+  | .clrS d => if deadS s d then some "dead" else none
   | .delS v =>
     if deadS s v then some "dead" else if pinnedOther s v then some "pinned"
     else if ownedBy s v then some "owned" else none
